@@ -145,11 +145,18 @@ Definition op_compute (o : op) : bool :=
   match o with OFrom c _ | OAdd c _ | OUpsert c _ | ORemove c _ => c end.
 
 (* the edit of the map / of the direct parents, exactly as the code performs it *)
+(* afe0e04: when the batch contains several versions of one uid only the LATEST is kept (in the order of the last
+   occurrences): `for entity in collection.rev() { if seen.insert(uid) { latest.push(entity) } }; latest.reverse()` *)
+Fixpoint latest_versions (es : list ent) : list ent :=
+  match es with
+  | [] => []
+  | e :: t => if existsb (fun e' => N.eqb (fst e') (fst e)) t then latest_versions t else e :: latest_versions t
+  end.
 Definition s_edit (s : store) (o : op) : tres store :=
   match o with
   | OFrom _ es => insert_all [] es
   | OAdd _ es => insert_all s es
-  | OUpsert _ es => TOk (fold_left upd_over es s)
+  | OUpsert _ es => TOk (fold_left upd_over (latest_versions es) s)
   | ORemove _ us => TOk (fold_left edit_remove us s)
   end.
 (* ... followed by recomputing every cached closure from the direct parents *)
@@ -249,7 +256,7 @@ Definition i_upsert_one (st : store * list uid) (e : ent) : store * list uid :=
     end in
   (upd_over s1 e, add_set u touched1).
 Definition i_upsert (compute : bool) (s : store) (es : list ent) : tres store :=
-  let '(s', touched) := fold_left i_upsert_one es (s, []) in
+  let '(s', touched) := fold_left i_upsert_one (latest_versions es) (s, []) in
   finish compute true touched s'.
 
 Definition i_remove_one (st : store * list uid) (u : uid) : store * list uid :=
